@@ -47,6 +47,8 @@ def run(ctx, rep):
     rep.guarded("R14-LEVEL", lambda: r_level(sh, rep))
     rep.guarded("R14-ERASE", lambda: r_erase(sh, rep))
     rep.guarded("R14-DUAL", lambda: r_dual(sh, rep))
+    rep.rule("R14-DIAG", "the prelude code that renders a trace argument (`diagnostic` and what it calls) cannot abort: no fail/todo/expect, every partial builtin applied under a reviewed guard, each un*Data in its own chooseData branch", floor=12)
+    rep.guarded("R14-DIAG", lambda: r_diag(sh, rep))
     # traced and untraced builds of one `expect` have different shapes (chooseData dispatch vs un*Data application): an optimiser
     # decision that is sound only for value forms keeps both behaviours equal; one widened to applications does not (C02's rule, re-run here)
     from . import c02
@@ -357,3 +359,91 @@ def r_msg(sh, rep):
     for a, b in (("Silent", "Compact"), ("Compact", "Verbose")):
         diff = sorted(per[a] ^ per[b])
         rep.check(not diff, "R14-MSG", "infer_trace#%s-vs-%s#same-user-expressions" % (a, b), sh.loc(TE, ms[-1]), "at %s the typed program keeps %s of the trace, at %s it keeps %s: the %s evaluated only at the higher level — strictly, in the generated code — and a failing one (`trace @\"r\": 10 / x`, a partial label helper) aborts the program there and nowhere else" % (a, sorted(per[a]) or "nothing", b, sorted(per[b]), " and ".join(diff) + (" is" if len(diff) == 1 else " are")), sample={a: sorted(per[a]), b: sorted(per[b])})
+
+
+# ---------------------------------------------------------------------------------------------------------
+# R14-DIAG: the rendering of trace arguments is total
+# ---------------------------------------------------------------------------------------------------------
+# A non-String trace argument is rendered by the prelude function `diagnostic` (tipo/expr.rs diagnose_expr), Aiken source
+# embedded in builtins.rs. It runs only in verbose builds, on data the program merely *mentions* — so any way it can abort is
+# a verdict that depends on the trace level. Reviewed partial builtins: (function, builtin) -> (structural side condition, why)
+DIAG_PARTIAL = {
+    ("diagnostic", "un_constr_data"): ("branch:1", "only in the constructor branch of chooseData"),
+    ("diagnostic", "un_map_data"): ("branch:2", "only in the map branch of chooseData"),
+    ("diagnostic", "un_list_data"): ("branch:3", "only in the list branch of chooseData"),
+    ("diagnostic", "un_i_data"): ("branch:4", "only in the integer branch of chooseData"),
+    ("diagnostic", "un_b_data"): ("branch:5", "only in the bytes branch of chooseData"),
+    ("encode_base16", "index_bytearray"): (None, "ix starts at length - 1 and the function returns at ix < 0"),
+    ("encode_base16", "cons_bytearray"): (None, "a nibble (0..15) plus 48 or 55"),
+    ("do_from_int", "cons_bytearray"): (None, "a remainder by 10 of a positive number, plus 48"),
+    ("from_int", "cons_bytearray"): (None, "a remainder by 10 of a positive number, plus 48"),
+    ("do_from_int", "quotient_integer"): ("divisor-literal", "constant non-zero divisor"),
+    ("do_from_int", "remainder_integer"): ("divisor-literal", "constant non-zero divisor"),
+    ("from_int", "quotient_integer"): ("divisor-literal", "constant non-zero divisor"),
+    ("from_int", "remainder_integer"): ("divisor-literal", "constant non-zero divisor"),
+}
+ABORT_KEYWORDS = ("fail", "todo", "expect", "error")
+
+
+def r_diag(sh, rep):
+    from . import aikensrc, c02
+    from .btab import BuiltinTables, RT
+    fns = aikensrc.embedded_functions(sh)
+    rep.touched(aikensrc.AB, "prelude_functions (embedded Aiken)")
+    if "diagnostic" not in fns:
+        raise AnchorMissing("embedded prelude function `diagnostic`")
+    # the renderer is entered through the name `diagnostic` (diagnose_expr); closure over the embedded functions it mentions
+    f = [fn for q, fn in all_fns(sh.file(TE)) if q.endswith("diagnose_expr")]
+    if not f or not any(n.get("k") == "Lit" and n.get("v") == "diagnostic" for n in walk(f[0]["body"])):
+        raise AnchorMissing("diagnose_expr naming the prelude function `diagnostic`")
+    reach, todo = [], ["diagnostic"]
+    while todo:
+        n = todo.pop()
+        if n in reach:
+            continue
+        reach.append(n)
+        todo += [i for i in set(fns[n].idents()) if i in fns and i not in reach]
+    names = aikensrc.aiken_builtin_names(sh)
+    t = BuiltinTables(sh)
+    for n in sorted(reach):
+        fn = fns[n]
+        where = "%s:%d" % (aikensrc.AB, fn.line)
+        kws = sorted(set(v for k, v in fn.toks if k == "id" and v in ABORT_KEYWORDS))
+        rep.check(not kws, "R14-DIAG", "%s#no-abort-keyword" % n, where, "the prelude function `%s`, which renders trace arguments in verbose builds only, contains `%s`: data that reaches it (a constructor index >= 128, say) aborts the traced build while the silent build of the same program succeeds" % (n, "`, `".join(kws)), sample={"function": n, "tokens": len(fn.toks)})
+        # one chooseData dispatch: which branch is each token in?
+        branch_of = {}
+        for b, i in fn.builtin_calls():
+            if b == "choose_data":
+                args = fn.call_args(i)
+                if args and len(args) == 6:
+                    # map token identity -> branch by re-walking positions
+                    pos = i + 2
+                    for k, a in enumerate(args):
+                        for _ in a:
+                            branch_of[pos] = k
+                            pos += 1
+                        pos += 1  # the comma
+        for b, i in fn.builtin_calls():
+            v = names.get(b)
+            if v is None:
+                rep.bad("R14-DIAG", "%s#%s#unknown-builtin" % (n, b), where, "`builtin.%s` in `%s` is not a row of DefaultFunction::aiken_name" % (b, n))
+                continue
+            arm = t.call.get(v)
+            exits = [e for e in (c02.exits_of(sh, RT, arm) if arm else ["?no-arm"]) if e not in ("Err:TypeMismatch", "Err:NotAConstant") and not e.startswith("panic:")]
+            if not exits:
+                continue  # total on well-typed arguments (read off the evaluator's arm)
+            cond = DIAG_PARTIAL.get((n, b))
+            if cond is None:
+                rep.bad("R14-DIAG", "%s#%s#partial-builtin-not-reviewed" % (n, b), where, "`%s` applies `builtin.%s`, which can fail on a value of its argument type (%s), and no guard for it has been reviewed: a failure here aborts verbose builds only" % (n, b, ", ".join(exits)), sample={"exits": exits})
+                continue
+            side, why = cond
+            ok, found = True, ""
+            if side and side.startswith("branch:"):
+                want = int(side.split(":")[1])
+                got = branch_of.get(i)
+                ok, found = got == want, "found in argument %s of chooseData" % got
+            elif side == "divisor-literal":
+                args = fn.call_args(i) or []
+                ok = len(args) == 2 and len(args[1]) == 1 and args[1][0][0] == "num" and int(args[1][0][1].replace("_", "")) != 0
+                found = "divisor `%s`" % " ".join(v for k, v in (args[1] if len(args) > 1 else []))
+            rep.check(ok, "R14-DIAG", "%s#%s#%s" % (n, b, side or "reviewed"), where, "`builtin.%s` in `%s` must be %s (%s); otherwise rendering a trace argument can abort the traced build" % (b, n, why, found), why_ok=why, sample={"exits": exits})
